@@ -33,6 +33,15 @@ theorem ovf_mono (c : AllocCfg) (s s' : St) (a : Act) (h : step c s a = some s')
     · cases h; exact h'
     · cases h
   | restart => simp only [step, restartSt] at h; cases h; exact h'
+  | failSave tid =>
+    simp only [step] at h
+    cases ht : s.thr tid with
+    | none => simp [ht] at h
+    | some t =>
+      simp only [ht] at h
+      split at h
+      · cases h
+      · cases h; exact h'
   | run tid =>
     simp only [step] at h
     cases ht : s.thr tid with
@@ -48,11 +57,11 @@ theorem ovf_mono (c : AllocCfg) (s s' : St) (a : Act) (h : step c s a = some s')
       · cases h; exact h'
       · cases h; exact h'
       · cases h; exact h'
-      · cases h; exact h'
+      · split at h <;> (cases h; exact h')
       · cases h
 
 /-- every thread step preserves `Base`, for every configuration -/
-theorem Base.step_thr {c : AllocCfg} {s s' : St} {tid : Nat} {t : Thr} (hb : Base c s)
+theorem Base.step_thr {c : AllocCfg} (hnr : c.releasesOnError = false) {s s' : St} {tid : Nat} {t : Thr} (hb : Base c s)
     (ht : s.thr tid = some t) (hs : stepThr c s tid t = some s') (hov : s'.ovf = false) :
     Base c s' := by
   have hl := hb.link tid t ht
@@ -86,15 +95,31 @@ theorem Base.step_thr {c : AllocCfg} {s s' : St} {tid : Nat} {t : Thr} (hb : Bas
       (next_ne_done c .unlock (by simp) (by simp)) (by simp [hpc])
       (link_next c .unlock t.reserved (by simp) (by simp) (by simp) (fun h => hl.2 h (by simp [hpc])))
   · -- reply
-    cases hs
-    exact Base.reply hb ht hpc
+    split at hs
+    · simp only [hnr, Bool.false_eq_true, if_false] at hs
+      cases hs
+      exact Base.drop hb ht hpc
+    · cases hs
+      exact Base.reply hb ht hpc
   · cases hs
 
-/-- every action except `restart` preserves `Base`, for every configuration -/
-theorem Base.step_noRestart {c : AllocCfg} {s s' : St} {a : Act} (hb : Base c s)
+/-- every action except `restart` preserves `Base`, for every configuration that does not give
+reserved ranges back -/
+theorem Base.step_noRestart {c : AllocCfg} (hnr : c.releasesOnError = false) {s s' : St} {a : Act} (hb : Base c s)
     (ha : a ≠ .restart) (hs : step c s a = some s') (hov : s'.ovf = false) : Base c s' := by
   cases a with
   | restart => exact absurd rfl ha
+  | failSave tid =>
+    simp only [step] at hs
+    cases ht : s.thr tid with
+    | none => simp [ht] at hs
+    | some t =>
+      simp only [ht] at hs
+      split at hs
+      · cases hs
+      · rename_i hnd
+        cases hs
+        exact Base.frame hb ht rfl rfl rfl rfl rfl rfl rfl rfl rfl hnd hnd (hb.link tid t ht)
   | spawn tid k n =>
     simp only [step] at hs
     split at hs
@@ -106,7 +131,7 @@ theorem Base.step_noRestart {c : AllocCfg} {s s' : St} {a : Act} (hb : Base c s)
     simp only [step] at hs
     cases ht : s.thr tid with
     | none => simp [ht] at hs
-    | some t => simp only [ht] at hs; exact Base.step_thr hb ht hs hov
+    | some t => simp only [ht] at hs; exact Base.step_thr hnr hb ht hs hov
 
 theorem init_ctr (c : AllocCfg) (start : Nat) (h : start < MAXU) :
     newCounter (resolve c start 0) < MAXU := by
@@ -133,7 +158,7 @@ theorem Cov.step_thr {c : AllocCfg} (hg : c.Good) {s s' : St} {tid : Nat} {t : T
     (hb : Base c s) (hc : Cov s)
     (ht : s.thr tid = some t) (hs : stepThr c s tid t = some s') (hov : s'.ovf = false) :
     Cov s' := by
-  obtain ⟨g1, g2, g3⟩ := hg
+  obtain ⟨g1, g2, g3, g4⟩ := hg
   have hl := hb.link tid t ht
   have hcr := hc.crit tid t ht
   unfold stepThr at hs
@@ -198,8 +223,18 @@ theorem Cov.step_thr {c : AllocCfg} (hg : c.Good) {s s' : St} {tid : Nat} {t : T
           exact this
     · intro hsv; cases k <;> simp [next, saved] at hsv
   · -- save
-    cases hs
-    exact Cov.save hc ht hpc (by simp [next, g1])
+    split at hs
+    · -- the checkpoint write fails: the checkpoint is unchanged
+      rename_i hf
+      cases hs
+      have hmu : s.mu = some tid := hcr.mp (by simp [hpc, critical])
+      refine Cov.trans hc ht rfl (fun _ => Nat.le_refl _) rfl rfl (fun j _ => Iff.rfl) ?_ ?_ ?_
+      · simp [next, g1, critical]; exact hmu
+      · intro k hk; simp [next, g1, hasRead] at hk
+      · intro _ hff; simp only at hff; rw [hf] at hff; cases hff
+    · rename_i hf
+      cases hs
+      exact Cov.save hc ht hpc (by simp [next, g1]) (by simpa using hf)
   · -- unlock
     cases hs
     have hmu : s.mu = some tid := hcr.mp (by simp [hpc, critical])
@@ -209,10 +244,20 @@ theorem Cov.step_thr {c : AllocCfg} (hg : c.Good) {s s' : St} {tid : Nat} {t : T
       rw [hmu]; simp; exact fun h => hj h.symm
     · simp [next, afterPersist, g2, critical]
     · intro k hk; simp [next, afterPersist, g2, hasRead] at hk
-    · intro _; exact hc.savedOk tid t ht (by simp [hpc, saved])
+    · intro _ hff; exact hc.savedOk tid t ht (by simp [hpc, saved]) hff
   · -- reply
-    cases hs
-    exact Cov.reply hc ht hpc
+    split at hs
+    · simp only [g4, Bool.false_eq_true, if_false] at hs
+      cases hs
+      have hnm : s.mu ≠ some tid := by
+        intro h; have := hcr.mpr h; simp [hpc, critical] at this
+      refine Cov.trans hc ht rfl (fun _ => Nat.le_refl _) rfl rfl (fun j _ => Iff.rfl) ?_ ?_ ?_
+      · simp [critical]; exact hnm
+      · intro k hk; simp [hasRead] at hk
+      · intro hsv; simp [saved] at hsv
+    · rename_i hf
+      cases hs
+      exact Cov.reply hc ht hpc (by simpa using hf)
   · cases hs
 
 /-- the combined invariant, guarded by "no counter has reached MaxUint64" -/
@@ -228,14 +273,14 @@ theorem Inv.preserved {c : AllocCfg} (hg : c.Good) {s s' : St} {a : Act} (hi : I
     simp only [step] at hs
     cases hs
     have hck : ∀ k, s.ck k < MAXU := fun k => Nat.lt_of_le_of_lt (hc.ckLe k) (hb.ctrLt k)
-    have hr := fun k => restart_ctr c hg.2.2 (s.start k) (s.ck k) (hb.startLt k) (hck k)
+    have hr := fun k => restart_ctr c hg.2.2.1 (s.start k) (s.ck k) (hb.startLt k) (hck k)
     constructor
     · refine ⟨fun k => (hr k).2, hb.startLt, ?_, hb.repDisj, ?_, ?_, ?_, ?_, ?_⟩
       · intro r hrm; exact Nat.le_trans (hc.repCk r hrm) (hr r.kind).1
       all_goals (intros; simp_all [restartSt])
     · refine ⟨fun k => (hr k).1, hc.repCk, ?_, ?_, ?_, ?_⟩
       all_goals (intros; simp_all [restartSt])
-  · refine ⟨Base.step_noRestart hb ha hs hov, ?_⟩
+  · refine ⟨Base.step_noRestart hg.2.2.2 hb ha hs hov, ?_⟩
     cases a with
     | restart => exact absurd rfl ha
     | spawn tid k n =>
@@ -247,6 +292,18 @@ theorem Inv.preserved {c : AllocCfg} (hg : c.Good) {s s' : St} {a : Act} (hi : I
         rw [this]
         exact Cov.spawn hc tid k n hcond.1
       · cases hs
+    | failSave tid =>
+      simp only [step] at hs
+      cases ht : s.thr tid with
+      | none => simp [ht] at hs
+      | some t =>
+        simp only [ht] at hs
+        split at hs
+        · cases hs
+        · cases hs
+          refine Cov.trans hc ht rfl (fun _ => Nat.le_refl _) rfl rfl (fun j _ => Iff.rfl) (hc.crit tid t ht)
+            (hc.rdOk tid t ht) ?_
+          intro _ hff; simp at hff
     | run tid =>
       simp only [step] at hs
       cases ht : s.thr tid with
